@@ -259,6 +259,12 @@ func init() {
 func genC01(e *emitter, tier string, seed uint64) {
 	r := newRng(seed)
 	quick := tier == "quick"
+	// accessors and the cleared-inputs serialisation, on a generator of their own
+	if quick {
+		genMiscC01(e, newRng(seed^0xC01F), 150)
+	} else {
+		genMiscC01(e, newRng(seed^0xC01F), 5000)
+	}
 	counts := []int{0, 1, 2, 3}
 	var seeds [][]byte
 	// (1) cross product of count classes (small), script-length classes
